@@ -56,6 +56,11 @@ CLAIMED["C17"] = dict(cat="other", sec="DESIGN 4/C17",
     note="A1, A2, A3, A8, A9; operand contract for abstract domains. Bounded: parameter variables schematic ('t' or 't','s'). Known findings F21, F04b (open).",
     tech="contract-based deductive verification (schematic in the parameter variables): VCs from the real AST, z3")
 
+CLAIMED["C03"] = dict(cat="other", sec="DESIGN 4/C03",
+    text="grad, laplacian, div, jac, rot, partial, normal_derivative, convective, sym_grad, matrix_div executed on symbolic batches with outputs u_c = U_c(x_row, t_row) for ARBITRARY smooth U_c: each result row equals the analytic expression in the derivative symbols (hence depends on its own row only); closed-form outputs (x^2, 3x, x*t, x^2+t) prove that identically vanishing derivatives come back as zeros, not errors.",
+    note="A4: torch.autograd.grad = exact structural derivative of the element term (tpv.jets), RuntimeError iff the variable does not occur in the graph (calibrated against real torch on the closed forms); A1 (no float32/float64 distinction), A2, A3, A9. Bounded: schematic numbers of variable / output components; derivative order <= 2.",
+    tech="contract-based deductive verification over a symbolic jet domain (structural differentiation of the executed terms), z3")
+
 NA = {
  "C19": "restore fidelity is a property of Lightning's checkpoint / torch.save machinery, the file system and process restarts; no contract on a repo function expresses it (DESIGN 4/C19)",
  "C20": "shift-equivariance / resolution consistency are DFT theorems about torch.fft in complex floating point; a contract on _FourierLayer.forward could only restate them as axioms of an external library (DESIGN 4/C20)",
